@@ -35,7 +35,7 @@ import json
 
 from fim.user.topology import ExperimentTopology
 from fim.user.node import Node, NodeType
-from fim.user.network_service import NetworkService, ServiceType
+from fim.user.network_service import NetworkService, PortMirrorService, ServiceType
 from fim.graph.slices.networkx_asm import NetworkxASM
 from fim.slivers.base_sliver import BaseSliver
 from fim.slivers.network_node import NodeSliver
@@ -111,6 +111,7 @@ class ResourceAuthZAttributes:
         ExperimentTopology: "topo",
         Node: "node",
         NetworkService: "ns",
+        PortMirrorService: "ns",
         NetworkxASM: "asm",
         NodeSliver: "node_sliver",
         NetworkServiceSliver: "ns_sliver",
